@@ -220,6 +220,10 @@ class PDFLayoutAnalyzer(PDFTextDevice):
                         transformed_path,
                         gstate.dash,
                     )
+                    # LTRect derives its points from two opposite corners; keep
+                    # the four corners in the order in which the path visits
+                    # them (like the points of LTLine and LTCurve)
+                    rect.pts = pts[:4]
                     self.cur_item.add(rect)
                 else:
                     curve = LTCurve(
